@@ -693,7 +693,7 @@ func newScenario(cfg []string) (hx.Handler, string) {
 		}()
 		stack.ServeHTTP(w, r)
 	})
-	s.srv = httptest.NewUnstartedServer(top)
+	s.srv = hx.NewUnstartedServer(top)
 	s.srv.Config.ErrorLog = log.New(io.Discard, "", 0)
 	s.srv.Start()
 	s.client = &http.Client{
